@@ -126,7 +126,7 @@ class Blocking:
         self.src = None
 
     def start(self, kind):
-        if self.used >= 100:                                 # keep request ids one octet long: every reply of a case has the same layout
+        if self.used >= 100 and not getattr(self, "norenew", False):       # keep request ids one octet long: every reply of a case has the same layout
             self.__init__(*self.args)
         self.used += 1
         s, rng = self.s, self.rng
@@ -307,7 +307,7 @@ def run(chk, tier, seed):
                     check_request(chk, raw, "aggr", "ha" if ha else "async", login, key, 1, dict(doc=doc)); nreq += 1
         s.cmd("CRED %s %s" % (wire.LOGIN.hex(), wire.KEY.hex()))
         # (c) every case of MC_Pdu
-        order = sorted(cases, key=lambda c: (c["transport"], c["alg"], c["kind"], c["dev"]["d"], c["dev"]["r"]))
+        order = sorted(cases, key=lambda c: (c["transport"], c.get("other", "v2"), c["alg"], c["kind"], c["dev"]["d"], c["dev"]["r"]))
         blk = {}
         for c in order:
             kind, tr, alg, dev = c["kind"], c["transport"], c["alg"], c["dev"]
@@ -321,12 +321,21 @@ def run(chk, tier, seed):
                 cseed = "%s/%s/%d/%s/%s" % (kind, tr, alg, dev["d"], dev["r"])
                 while True:
                     if tr in ("blocking", "http"):
-                        if (tr, alg) not in blk:
-                            blk.clear(); blk[(tr, alg)] = (Blocking if tr == "blocking" else Http)(s, rng, alg)
-                        b = blk[(tr, alg)]
+                        oth = c.get("other", "v2")
+                        oth = (oth, kind) if oth == "v1" else oth
+                        if (tr, alg, oth) not in blk:
+                            blk.clear(); blk[(tr, alg, oth)] = (Blocking if tr == "blocking" else Http)(s, rng, alg)
+                            if oth != "v2":      # the OTHER service speaks v1; this one stays v2
+                                o2 = s.cmd("PDUVER %d %d" % ((2, 1) if kind == "aggr" else (1, 2)))
+                                if "rc=0" not in o2[-1]:
+                                    raise vlib.CheckError("PDUVER failed: %s" % o2)
+                                blk[(tr, alg, oth)].norenew = True      # never re-created silently with default versions
+                        b = blk[(tr, alg, oth)]
                         raw, d, out = b.start(kind)
                         if raw is None:
                             chk.violation("no-request:%s:%s" % (kind, tr), "%s %s sent nothing" % (tr, kind), dict(log=s.log[-10:])); return
+                        if oth != "v2":
+                            check_request(chk, raw, kind, "blocking(other service v1)", wire.LOGIN, wire.KEY, alg, d)
                         rid = int.from_bytes(wire.request_fields(raw)["payload"].get(1, b""), "big")
                         reply, regions = authentic(kind, random.Random(cseed), rid, d, alg, dev)
                         if it is None:
